@@ -1231,6 +1231,22 @@ class Interp:
                 return self.call_function(mf, a, "__module__")
             finally:
                 self._stack.pop()
+        # … a method that did not exist in the tree the rules were written against (so no rule can have modelled it), on a receiver whose
+        # class follows from the constructors in the source (`self.modes.return_mode` is a ReturnMode): follow it
+        if (self.auto_private and isinstance(recv, Residual) and self.idx is not None and getattr(self.idx, "reference_methods", None) is not None
+                and len(self._stack) < 12):
+            tcls = self._chain_type(recv.text)
+            if tcls and self.idx.has_method(tcls, meth) and not any(f"{c.name}.{meth}" in self.idx.reference_methods for c in self.idx.mro(tcls)):
+                mf = self.idx.method(tcls, meth)
+                if not any(isinstance(n, (ast.Yield, ast.YieldFrom)) for n in ast.walk(mf.node)):
+                    a = dict(kwargs)
+                    a["__pos__"] = args
+                    self.types.setdefault(recv.text, tcls)
+                    self._stack.append(meth)
+                    try:
+                        return self.call_function(mf, a, recv.text)
+                    finally:
+                        self._stack.pop()
         # … or a function of a module of the analysed package called through the module's imported name (`pathu.split_mark(…)`)
         if (self.auto_private and isinstance(recv, Residual) and self._fi_stack and self.idx is not None and len(self._stack) < 12
                 and (self._fi_stack[-1].file, recv.text) in getattr(self.idx, "module_aliases", {})):
@@ -1369,6 +1385,22 @@ class Interp:
             self.path.trace.append(("call", ckey, (args, kwargs)))
             return Residual(f"{ckey}({', '.join([txt(a) for a in args] + [k + '=' + txt(v) for k, v in kwargs.items()])})")
         raise Undecidable(f"call to unmodelled callee {ckey} in {full}")
+
+    def _chain_type(self, text):
+        """class of the object a dotted receiver path denotes, from the rule's types for its root and the constructors in the source"""
+        if text in self.types:
+            return self.types[text]
+        parts = text.split(".")
+        for i in range(len(parts) - 1, 0, -1):
+            root = ".".join(parts[:i])
+            if root in self.types:
+                cls = self.types[root]
+                for a in parts[i:]:
+                    cls = self.idx.attr_type(cls, a) if cls and self.idx.has_cls(cls) else None
+                    if cls is None:
+                        return None
+                return cls
+        return None
 
     def _new_private(self, ci, pos, kw):
         n = self.store.get("__new__", 0) + 1
